@@ -23,6 +23,9 @@ func init() {
 		}
 		return 8
 	}, runKMountRecover)
+	addMountFloors(Registry["C04"], func(tier string) map[string]int {
+		return map[string]int{"recover_rounds_judged": 8, "recover_hot_journals": 4, "recover_db_file_dirty_before_recovery": 4, "recover_wal_nonempty_before_recovery": 2, "recover_unjournaled_free_page_overwrites": 1}
+	})
 }
 
 // runKMountRecover: LiteFS's OWN recovery over what a dead REAL SQLite client
